@@ -120,6 +120,7 @@ def observer(got, pred, sp, call, sg, prog, ctx, part):
 
 def run(report, tier):
     apirun.run_config(report, 'MC_C01', observer=observer, report_kinds=('S',), overrides={'Want': '<-MC_WantDV'})
+    apirun.run_config(report, 'MC_C01M', observer=observer, report_kinds=('S',), overrides={'Want': '<-MC_WantDV'})
     return report.finish(
         rule='every Api program of <= MaxCalls calls with a scalar result: compile_gradient, CompiledExpression.gradient and '
              'compile_jacobian (single row and with the earlier scalars of the program as further rows) for every permutation / '
